@@ -265,6 +265,8 @@ SITES = {
         S('enumerate', 'args.interaction_order > 1', {'args.interaction_order': 'k'}),
         S('lengthPrefixed', "f'{len(value)}:{value}'", {'value': ('v', STR)}),
     ],
+    ('C11', TR, 'FeatureTransformerGeneric.get_vals'): [],
+    ('C11', TR, 'FeatureTransformerGeneric.construct_new_features'): [],
     ('C11', CR, 'compute_batch_ranking'): [
         S('doTransform', "args.transformers != 'none'", {'args.transformers': ('t', STR)}),
         S('doExplode', "args.explode_multivalue_features != 'False'", {'args.explode_multivalue_features': ('e', STR)}),
